@@ -169,3 +169,30 @@ def digits_int(ctx, name, maxdigits=6, signed=True):
     if ctx.symbolic and not isinstance(v, int):
         v.digits = (neg, ds)
     return v
+
+
+# ---- stateful sequences on one container object (rendering / enumeration after mutation) ------
+SEQ_SET_OPS = ["string(s)", "append(s, 1)", "append(s, 2)", "append(s, 5)", "remove(s, 1)", "remove(s, 3)",
+               "for x in s do x end", "list(s)", "[...s]", "2 in s", "union(s, <<>>)", "length(s)"]
+SEQ_MAP_OPS = ["string(m)", "put(m, 1, 'a')", "put(m, 2, 'b')", "put(m, 5, 'e')", "remove(m, 1)", "remove(m, 3)",
+               "for k in keys m do k end", "[e for e in entries m]", "set(m)", "2 in m", "length(m)"]
+
+
+def seq_model(kind, ops):
+    """python model of the container after the operation sequence (errors abort the op only)"""
+    if kind == "set":
+        st = {1, 3, 4}
+        for op in ops:
+            if op.startswith("append(s, "):
+                st.add(int(op[10:-1]))
+            elif op.startswith("remove(s, "):
+                st.discard(int(op[10:-1]))
+        return sorted(st)
+    m = {1: "x", 3: "y", 4: "z"}
+    for op in ops:
+        if op.startswith("put(m, "):
+            k, v = op[7:-1].split(", ")
+            m[int(k)] = v.strip("'")
+        elif op.startswith("remove(m, "):
+            m.pop(int(op[10:-1]), None)
+    return sorted(m.items())
